@@ -635,6 +635,9 @@ func RemoveAliases(indexName string, aliases []string, orgid int64) error {
 		log.Errorf("RemoveAliases: len of aliases was 0. len(aliases)=%v", alLen)
 		return errors.New("len of aliases was 0")
 	}
+	if !IsValidIndexName(indexName) {
+		return errors.New("invalid index name")
+	}
 
 	currentAliases, err := GetAliases(indexName, orgid)
 	if err != nil {
